@@ -782,7 +782,10 @@ impl<'a> World<'a> {
         let (snap, _) = self.entries_snap(entries);
         let bytes = render_file(&snap, ALIEN_NETWORK, self.base);
         self.replace_file_atomically(&bytes);
-        self.file_state = FileState::Clean;
+        // a well-formed file of another network: loading it may fail cleanly (it is ignored) or succeed
+        // without using its peers; it is never "a file nobody tampered with"
+        self.file_state = FileState::Corrupt;
+        self.corrupt_pending_flush = true;
         self.rep.fault("file_of_other_network");
         self.rep.log(format!("FAULT other-network file: {}", self.render(&snap)));
         self.post(true, "foreign");
